@@ -172,9 +172,24 @@ func genConfig(t *rapid.T, o cfgOpts) emuConfig {
 	if rapid.IntRange(0, 3).Draw(t, "gnb_bits_24") == 0 {
 		c.GnbBitLen = 24
 	}
+	human := rapid.IntRange(0, 4).Draw(t, "gnb_id_human") == 3
+	if human {
+		c.GnbBitLen = uint64(rapid.SampledFrom([]int{32, 32, 24, 28, 30, 31, 29}).Draw(t, "gnb_bits_h"))
+	}
 	nb := int(c.GnbBitLen+7) / 8
 	id := drawBytes(t, nb, "gnb_id")
 	binary := rapid.IntRange(0, 3).Draw(t, "gnb_id_binary") == 2
+	if human {
+		// an id a person types: "1234", "0001", "beef", "ABCD" — octets that happen to be digits and letters a..f
+		binary = false
+		const hx = "0123456789abcdefABCDEF0123456789"
+		for i := range id {
+			id[i] = hx[int(id[i])%len(hx)]
+		}
+		if c.GnbBitLen%8 != 0 {
+			id[nb-1] = '0' // 0x30: the low four bits are padding for 28..31 bits
+		}
+	}
 	for i := range id {
 		if !binary {
 			id[i] &= 0x7f
@@ -232,6 +247,9 @@ func drawSyntax(t *rapid.T) (s fileSyntax) {
 	s.DocStart = rapid.IntRange(0, 3).Draw(t, "doc_start") == 1
 	s.Indent = rapid.SampledFrom([]int{0, 0, 1, 4, 8}).Draw(t, "indent")
 	s.Kind = rapid.SampledFrom([]string{"", "", "", "symlink", "symlink-chain", "fifo"}).Draw(t, "file_kind")
+	if rapid.Bool().Draw(t, "header_varies") {
+		s.Header = rapid.IntRange(1, 7).Draw(t, "header")
+	}
 	if rapid.IntRange(0, 2).Draw(t, "extra_keys") == 1 {
 		names := []string{"src_iface", "dst_iface", "imsi", "amf_ip", "amf_port", "gnb_ip", "plmn", "ue_count", "opc_key", "gnb-id", "GNB_NAME", "Mcc", "sst_sd", "ue_registrations"}
 		n := rapid.IntRange(1, 4).Draw(t, "n_extra")
